@@ -14,6 +14,7 @@ from itertools import chain
 from typing import Any
 
 from ufl.algorithms.analysis import extract_coefficients, extract_sub_elements, unique_tuple
+from ufl import _verif
 from ufl.algorithms.apply_coefficient_split import CoefficientSplitter
 from ufl.algorithms.apply_restrictions import apply_restrictions, default_restriction_map
 from ufl.algorithms.check_arities import check_integrand_arity
@@ -260,6 +261,9 @@ class FormData:
                     new_integrals.append(integral.reconstruct(integrand=integrand))
                 itg_data.integrals = new_integrals
 
+        if _verif.enabled and do_replace_functions:
+            _verif.emit("replace_functions", self.integral_data)
+
         # --- Split mixed coefficients with their components
         if coefficients_to_split is None:
             self._coefficient_split = {}
@@ -300,6 +304,9 @@ class FormData:
                         new_integrals.append(integral.reconstruct(integrand=integrand))
                 itg_data.integrals = new_integrals
 
+        if _verif.enabled and coefficients_to_split is not None:
+            _verif.emit("coefficient_split", self.integral_data)
+
         # Propagate restrictions to terminals
         if do_apply_restrictions:
             for itg_data in self.integral_data:
@@ -336,9 +343,14 @@ class FormData:
                     new_integrals.append(new_integral)
                 itg_data.integrals = new_integrals
 
+        if _verif.enabled and do_apply_restrictions:
+            _verif.emit("apply_restrictions", self.integral_data)
+
         _check_elements(self)
         _check_facet_geometry(self.integral_data)
         _check_form_arity(self.integral_data, self.original_form.arguments(), complex_mode)
+        if _verif.enabled:
+            _verif.emit("checks", self.integral_data)
 
     def __str__(self):
         """Return formatted summary of form data."""
